@@ -1393,6 +1393,11 @@ class _Ctx:
         for h in s.handlers:
             tn = ast.unparse(h.type) if h.type is not None else 'BaseException'
             handled_types.append(tn)
+        # only calls whose effects matter: calls into the package or into code supplied by the caller
+        has_call = any(isinstance(y, ast.Call) and not (isinstance(y.func, ast.Name) and y.func.id in
+                                                         ('len', 'int', 'float', 'str', 'list', 'dict', 'tuple', 'set', 'type', 'isinstance', 'range',
+                                                          'enumerate', 'zip', 'min', 'max', 'abs', 'sorted', 'iter', 'next', 'open'))
+                       for st_ in s.body for y in ast.walk(st_))
         for b in body_states:
             if b.status == 'raise' and b.events and b.events[-1].kind == 'raise':
                 exc = b.events[-1].data.get('exc')
@@ -1409,6 +1414,15 @@ class _Ctx:
                         b.env[hit.name] = Sym(hit.name)
                     outs.extend(self.block(hit.body, [b]))
                     continue
+            if b.status == 'normal' and has_call:
+                # the exception may also come out of the LAST thing the body did - after every effect of the body (a callback that
+                # completed the model and then raised): the handler then runs on top of those effects
+                for h, tn in zip(s.handlers, handled_types):
+                    e2 = b.fork()
+                    self.emit(e2, 'except', h, type=tn, explicit=False, after_body=True)
+                    if h.name:
+                        e2.env[h.name] = Sym(h.name)
+                    outs.extend(self.block(h.body, [e2]))
             if b.status == 'normal' and s.orelse:
                 outs.extend(self.block(s.orelse, [b]))
             else:
